@@ -6,7 +6,8 @@
 //!   names are over [A-Za-z0-9_.~]; paths are `/`-prefixed, `/`-separated, relative to the scratch top;
 //!   `~1`..`~5` stand for a space, `%`, `#`, `日` and `+` (caseless characters that a URI percent-encodes or that are
 //!   special in one): the harness decodes them before touching the file system or the server and encodes them again
-//!   in every path it reports, so that the model sees plain two-character names
+//!   in every path it reports, so that the model sees plain two-character names; `~a`/`~A` .. `~d`/`~D` stand for
+//!   é/É, ü/Ü, ж/Ж, ω/Ω (cased letters outside ASCII: a class must be found under either case of them too)
 //!   op    = F:<path>            create a file (and the directories above it)
 //!         | R                   ProjectManager::index_files
 //!         | C:<path>:<version>  notify_document_changed with text `class V<version> (aObject)`
@@ -91,7 +92,10 @@ fn write_file(p: &Path) {
     let _ = fs::write(p, format!("class a{} (aObject)\n", cls));
 }
 
-const ESCAPES: [(&str, &str); 5] = [("~1", " "), ("~2", "%"), ("~3", "#"), ("~4", "日"), ("~5", "+")];
+// ~a/~A .. ~d/~D: cased non-ASCII letters with a simple one-to-one case mapping; the escape's own ASCII letter case
+// mirrors the letter's case, so ASCII upper-casing of the model's name = str::to_uppercase of the real name
+const ESCAPES: [(&str, &str); 13] = [("~1", " "), ("~2", "%"), ("~3", "#"), ("~4", "日"), ("~5", "+"),
+    ("~a", "é"), ("~A", "É"), ("~b", "ü"), ("~B", "Ü"), ("~c", "ж"), ("~C", "Ж"), ("~d", "ω"), ("~D", "Ω")];
 
 fn decode(s: &str) -> String {
     let mut r = s.to_string();
